@@ -425,7 +425,7 @@ func progGen(c *ctx) {
 	}
 	if c.thorough() {
 		frames, nSynth, synthFrames = 300, 40, 12
-		nCode, codeFrames = 3000, 3
+		nCode, codeFrames = 1000, 3
 	}
 	enc := func(p string) string { return strings.ReplaceAll(p, " ", "*") }
 	for _, r := range roms {
